@@ -111,7 +111,8 @@ def _inline_site(body, bi, callee):
     span = t.get('span')
     body['locals'].extend(copy.deepcopy(callee['locals']))
     for v in callee.get('vars', []):
-        if 'pl' in v:
+        # the parameters of the spliced function become unnamed temporaries (they are the argument values, not variables of the caller)
+        if 'pl' in v and v.get('arg') is None:
             nv = dict(v)
             nv['pl'] = _remap(v['pl'], loff, 0)
             nv['arg'] = None
